@@ -12,6 +12,7 @@ mod suts;
 mod freerun;
 mod exec_suts;
 mod chan_suts;
+mod cont_suts;
 
 use sched::*;
 use serde_json::{json, Value};
